@@ -27,6 +27,10 @@ type c07Type struct {
 	getter string
 	kind   reflect.Kind
 	hasSort bool
+	// valueMap: the element is a pcommon.Value; its identity marker is kept INSIDE a map value ({"id": n}), i.e. behind a
+	// pointer-bearing one-of wrapper, so that two elements sharing a wrapper (leftovers of RemoveIf re-used by CopyTo) read
+	// the same id. A scalar marker would replace the wrapper and hide that.
+	valueMap bool
 }
 
 func c07NewType(ctor any) *c07Type {
@@ -39,6 +43,12 @@ func c07NewType(ctor any) *c07Type {
 	}
 	t.elem = at.Type.Out(0)
 	_, t.hasSort = st.MethodByName("Sort")
+	if _, ok := t.elem.MethodByName("SetEmptyMap"); ok {
+		if _, ok2 := t.elem.MethodByName("Map"); ok2 {
+			t.valueMap = true
+			return t
+		}
+	}
 	// pick a scalar Set/Get pair on the element as identity marker (strings preferred)
 	best := 99
 	for i := 0; i < t.elem.NumMethod(); i++ {
@@ -76,6 +86,16 @@ func c07NewType(ctor any) *c07Type {
 }
 
 func (t *c07Type) mark(e reflect.Value, id int) {
+	if t.valueMap {
+		var m reflect.Value
+		if e.MethodByName("Type").Call(nil)[0].Int() == 5 { // ValueTypeMap: keep the wrapper, as a mutation of the element would
+			m = e.MethodByName("Map").Call(nil)[0]
+		} else {
+			m = e.MethodByName("SetEmptyMap").Call(nil)[0]
+		}
+		m.MethodByName("PutInt").Call([]reflect.Value{reflect.ValueOf("id"), reflect.ValueOf(int64(id))})
+		return
+	}
 	arg := reflect.New(e.MethodByName(t.setter).Type().In(0)).Elem()
 	switch t.kind {
 	case reflect.String:
@@ -95,6 +115,16 @@ func (t *c07Type) mark(e reflect.Value, id int) {
 }
 
 func (t *c07Type) read(e reflect.Value) int {
+	if t.valueMap {
+		if e.MethodByName("Type").Call(nil)[0].Int() != 5 {
+			return -1
+		}
+		r := e.MethodByName("Map").Call(nil)[0].MethodByName("Get").Call([]reflect.Value{reflect.ValueOf("id")})
+		if !r[1].Bool() {
+			return -1
+		}
+		return int(r[0].MethodByName("Int").Call(nil)[0].Int())
+	}
 	v := e.MethodByName(t.getter).Call(nil)[0]
 	switch t.kind {
 	case reflect.String:
